@@ -40,6 +40,7 @@ def check(ctx):
                   "reconnect timeout between attempts (and restart the timer, otherwise it reopens on every service call and "
                   "never completes a connection)")
     cutoff_detection(ctx)
+    timer_time_base(ctx)
     ctx.rule("T4-lifecycle", "receive()/send() of the client transports only classify errors and flag cutoff: they never close/open the socket")
     for cn in ("Client", "ClientTls"):
         for meth in ("receive", "send"):
@@ -123,3 +124,27 @@ def cutoff_detection(ctx):
             "Patron.serviceAll calls serviceResponse() unconditionally", why)
     _always(ctx, "T2-listen", "aio.http.clienting", "Patron", "serviceResponse", "self.connector.serviceReceives",
             "Patron.serviceResponse calls connector.serviceReceives() unconditionally", why)
+
+
+def timer_time_base(ctx):
+    """the reconnect timer of a client transport is a StoreTimer on the store it was given; whoever builds the transport and then
+    waits for `timer.expired` must hand it the object whose stamp it advances - otherwise the timer watches a private store that
+    never moves and never expires"""
+    ctx.rule("T5-timebase", "every construction of tcp Client/ClientTls by a stack or Patron passes store=<the owner's store/stamper>")
+    sites = 0
+    for modn, cn, want in (("stacking", "TcpClientStack", ("self.stamper",)),
+                           ("http.clienting", "Patron", ("self.store", "self.connector.store", "store"))):
+        C = ctx.cls(modn, cn)
+        for mname, f in sorted(C.methods.items()):
+            V = None
+            for x in ast.walk(f):
+                if isinstance(x, ast.Call) and (dotted(x.func) or "").split(".")[-1] in ("Client", "ClientTls"):
+                    sites += 1
+                    V = V or FuncView(ctx, f)
+                    node = [n for n, c in V.calls((dotted(x.func),)) if c is x]
+                    kw = {k.arg: k.value for k in x.keywords if k.arg}
+                    val = src(V.sym(kw["store"], node[0])) if "store" in kw and node else (src(kw["store"]) if "store" in kw else None)
+                    ctx.check(val in want, "T5-timebase", x, "%s.%s builds its %s with store=%s" % (cn, mname, dotted(x.func), val),
+                              "the transport's reconnect timer must run on the time base its owner advances: without it a "
+                              "reconnectable client that was cut off waits for a timer that never expires and never reopens")
+    ctx.floor("T5-timebase:sites", sites, 5)
